@@ -1418,10 +1418,27 @@ impl FixtureDatabase {
             self.find_function_signature_at_line(&module.body, function_line, &line_index)?;
 
         let end_of = |arg: &rustpython_parser::ast::ArgWithDefault| -> usize {
-            arg.default
-                .as_ref()
-                .map(|d| d.range().end().to_usize())
-                .unwrap_or_else(|| arg.def.range.end().to_usize())
+            let Some(default) = arg.default.as_ref() else {
+                return arg.def.range.end().to_usize();
+            };
+            // The range of a parenthesised default (`b=(1 + 2)`) excludes the parentheses:
+            // step over as many closing ones as were opened between `=` and the expression.
+            let mut end = default.range().end().to_usize();
+            let opened = content
+                .get(arg.def.range.end().to_usize()..default.range().start().to_usize())
+                .map_or(0, |between| between.matches('(').count());
+            for _ in 0..opened {
+                let Some(rest) = content.get(end..) else {
+                    break;
+                };
+                let skipped = rest.len() - rest.trim_start().len();
+                if rest[skipped..].starts_with(')') {
+                    end += skipped + 1;
+                } else {
+                    break;
+                }
+            }
+            end
         };
         let first_default = args
             .posonlyargs
